@@ -99,7 +99,14 @@ MANIFEST = {
             "and compares every validated tree with a python reference (comps_dflt.WhenRef) that evaluates the conditions on "
             "its own record of the explicit content: defaults exactly where own and inherited when hold, explicit nodes under "
             "a false when rejected - deleted iff LYD_WHEN_TRUE had been set -, diff applied to the tree before = tree after, "
-            "second validation changes / reports nothing.",
+            "second validation changes / reports nothing. The same histories also call the implicit-node API: "
+            "lyd_new_implicit_all (= lyd_new_implicit_module per module + lyd_new_implicit_tree per root) on the explicit "
+            "content parsed with LYD_PARSE_ONLY, options none / NO_STATE / OUTPUT / NO_DEFAULTS, with and without the diff "
+            "output - the tree must be what validation gives for that content (no implicit node under a false when; with "
+            "NO_DEFAULTS the NP containers only), the diff applied to a dup of the tree before = tree after, a second call "
+            "changes and reports nothing - and on a copy of the validated tree (no change, empty diff); the family includes a "
+            "top-level conditional default leaf, a top-level conditional NP container with a default child and a nested "
+            "default whose when reads the top-level default.",
     "note": "PARTIAL. Not proved: the normal form for inputs outside Implicit.editedb (nodes that are new AND default, "
             "incomplete default leaf-lists = deviation dflt-leaflist-partial; checked at run time on every generated case), "
             "that the second validation does not fail, exactness of the change list "
@@ -124,7 +131,8 @@ MANIFEST = {
             "and the extracted wrun: same surviving nodes, values, default flags, same rejections. NOT in WhenRes.v: the "
             "subtree of a deleted node, choices / cases (finding when-autodel-default-case), the interplay with "
             "lyd_new_implicit beyond 'missing defaults are created first and queued as was-true' (done by the OCaml runner), "
-            "the connection of this layer with Implicit.validate_all (no combined theorem). Not modelled: must / unique / leafref, several modules (with data of "
+            "the connection of this layer with Implicit.validate_all (no combined theorem). lyd_new_implicit_tree / _module are only reached through "
+            "lyd_new_implicit_all (impl/lyx.c has no separate command), LYD_IMPLICIT_NO_CONFIG is not exercised. Not modelled: must / unique / leafref, several modules (with data of "
             "another module in front libyang inserts a new top-level default node before older siblings of its own module - seen "
             "once, outside Tree.v), LYD_VALIDATE_NO_STATE / NO_DEFAULTS / MULTI_ERROR, the state of the tree after a failed "
             "validation, LYD_PRINT_KEEPEMPTYCONT in the theorem (tied by the correspondence run only), the LYB printer.",
